@@ -31,10 +31,12 @@ VLess(a, b) == \/ \E i \in 1..Len(a) : i <= Len(b) /\ (\A j \in 1..(i - 1) : a[j
 VGeq(a, b) == ~VLess(a, b)
 
 Ver(r) == IF r.hasv THEN r.v ELSE <<1>>
+\* in-process simulator whose OWN init / step lack the v3 parameters (whatever its base classes look like)
+OldSigs(r) == r.kind \in {"inproc_old", "inproc_old_sub"}
 Reject(r) ==
   \/ VGeq(Ver(r), <<4>>)
   \/ r.explicit = "different"
-  \/ (r.kind = "inproc_old" /\ VGeq(Ver(r), <<3>>))
+  \/ (OldSigs(r) /\ VGeq(Ver(r), <<3>>))
   \/ (VGeq(Ver(r), <<3>>) /\ ~r.hastype)
 
 \* rows with an injected failure of the simulator's own step (r.fail # "none"): the run fails with that error, every
@@ -56,7 +58,7 @@ RowViol(n) ==
      (IF r.out # "ok" THEN {"C15_valid_simulator_rejected"} ELSE {})
      \cup (IF r.out = "ok" /\ (r.step_nargs = 3) # VGeq(v, <<3>>) THEN {"C15_max_advance_wrongly_passed_or_dropped"} ELSE {})
      \cup (IF r.out = "ok" /\ r.setup_done # VGeq(v, <<2, 2>>) THEN {"C15_setup_done_wrongly_sent_or_dropped"} ELSE {})
-     \cup (IF r.out = "ok" /\ r.init_tr # (r.kind # "inproc_old") THEN {"C15_time_resolution_wrongly_passed_or_dropped"} ELSE {})
+     \cup (IF r.out = "ok" /\ r.init_tr # ~OldSigs(r) THEN {"C15_time_resolution_wrongly_passed_or_dropped"} ELSE {})
      \cup (IF r.out = "ok" /\ ~r.hastype /\ r.type_seen # "time-based" THEN {"C15_missing_type_not_defaulted"} ELSE {})
      \* only a MISSING type is defaulted: a declared type is the simulator's type, whatever its version
      \cup (IF r.out = "ok" /\ r.hastype /\ r.type_seen # r.decl_type THEN {"C15_declared_type_not_respected"} ELSE {})
